@@ -390,15 +390,10 @@ def rename_script(s, old, new, memo=None):
     return r
 
 
-def o_no_capture(case, res, rng):
-    """rename one user column to a scratch base name (or to <shared>_tmp_right_col) everywhere, evaluate, rename back: same result"""
+def capture_try(case, res, old, new):
+    """rename the user column `old` to the scratch name `new` everywhere, evaluate, rename back: the result must not change"""
     allcols = sorted({c for t in case.tabs if t["name"] in case.frames for c, _ in t["spec"]})
-    if not allcols:
-        return None
-    old = rng.choice(allcols)
-    cands = list(SCRATCH_USER_NAMES) + [c + "_tmp_right_col" for c in allcols if c != old]
-    new = rng.choice(cands)
-    if new in allcols:
+    if new in allcols or old not in allcols:
         return None
     try:
         s2 = rename_script(case.script, old, new)
@@ -414,6 +409,28 @@ def o_no_capture(case, res, rng):
         return f"renaming column {old!r} to the scratch name {new!r} changes the result columns: {list(back.columns)} vs {list(res.columns)}"
     why = pipes.frames_equiv(res, back[list(res.columns)], check_col_order=True, check_row_order=not single_key_ties(case.ops, case.frames))
     return None if why is None else f"renaming column {old!r} to the scratch name {new!r} changes the result: {why}"
+
+
+def o_no_capture(case, res, rng, kind="random"):
+    """random pipelines: one random (column, scratch name) pair; targeted shapes: every scratch name of that step kind on the columns
+    the step reads (a hard-wired scratch name shows only when the captured column takes part in the step)"""
+    allcols = sorted({c for t in case.tabs if t["name"] in case.frames for c, _ in t["spec"]})
+    if not allcols:
+        return None
+    if kind in SCRATCH_BY_KIND:
+        import re
+        text = json.dumps(case.script)
+        used = [c for c in allcols if re.search(r"(?<![A-Za-z_0-9])%s(?![A-Za-z_0-9])" % re.escape(c), text) and c not in ("uid", "lid", "rid")]
+        rng.shuffle(used)
+        for new in SCRATCH_BY_KIND[kind]:
+            for old in used[:2]:
+                w = capture_try(case, res, old, new)
+                if w:
+                    return w
+        return None
+    old = rng.choice(allcols)
+    new = rng.choice(list(SCRATCH_USER_NAMES) + [c + "_tmp_right_col" for c in allcols if c != old])
+    return capture_try(case, res, old, new)
 
 
 def keys_match(a, b, lk, rk):
@@ -631,8 +648,8 @@ def run_oracles(chk, case, res, err, expr_raise, info, rng):
         if w:
             whys.append(("columns", w))
         else:
-            if rng.random() < 0.5:
-                w = o_no_capture(case, res, rng)
+            if kind in SCRATCH_BY_KIND or rng.random() < 0.5:
+                w = o_no_capture(case, res, rng, kind)
                 if w:
                     whys.append(("capture", w))
             if kind == "join":
